@@ -315,6 +315,19 @@ class Table:
                 return args[0]
         if head == 'idx' and len(args) == 2 and isinstance(args[0], RF) and isinstance(args[1], RF) and \
                 args[1].const() is not None and args[1].const().denominator == 1:
+            # the last of a sequence of known length: sorted([a, b])[-1] is sorted([a, b])[1]
+            sa_ = args[0].single_atom()
+            if sa_ is not None and args[1].const() < 0:
+                seq = self.atoms[sa_]
+                n_ = None
+                if seq.head == 'tuple':
+                    n_ = len(seq.args)
+                elif seq.head == 'call' and seq.extra == ('fn:sorted',) and len(seq.args) == 1 and \
+                        isinstance(seq.args[0], RF) and seq.args[0].single_atom() is not None and \
+                        self.atoms[seq.args[0].single_atom()].head == 'tuple':
+                    n_ = len(self.atoms[seq.args[0].single_atom()].args)
+                if n_ is not None and 0 <= n_ + int(args[1].const()) < n_:
+                    return self.atom('idx', (args[0], self.const(n_ + int(args[1].const()))))
             # where(mask)[0] is flatnonzero(mask)
             wa = args[0].single_atom()
             if wa is not None and self.atoms[wa].head == 'call' and self.atoms[wa].extra == ('fn:where',) and \
